@@ -46,6 +46,82 @@ theorem c07_chain_forward {σ : Type} [ScopeAlg σ] [LawfulScope σ] (owner step
     lookupRef (nextScope owner (some stepScope)) k = lookupRef stepScope k :=
   ⟨LawfulScope.lookup_chain .., LawfulScope.lookupRef_chain ..⟩
 
+/-- **A skipped step still is a link of the chain.**  `_handle_tuple` hands the finished scope of
+    every step on to the next one — `scope = chain_child(scope)` runs at the top of *each*
+    iteration, before the result is inspected.  A step that evaluates to SKIP differs from a step
+    that evaluates to an ordinary value `v` in one thing only: the target of the rest of the chain
+    (`res` instead of `v`).  The scope arguments of the continuation are the same.  STOP ends the
+    chain with the result so far. -/
+theorem c07_chain_skip_is_link {σ : Type} [ScopeAlg σ] (rec : Rec σ) (sub : Spec) (rest : List Spec)
+    (res : V) (cur : σ) (last : Option σ) (st st1 : St) (v : V) (c1 : σ)
+    (h : rec sub res (nextScope cur last) st = (st1, .ok (v, c1))) :
+    (v = .skip → tupleLoop rec (sub :: rest) res cur last st =
+        tupleLoop rec rest res (nextScope cur last) (some c1) st1) ∧
+    (v = .stop → tupleLoop rec (sub :: rest) res cur last st = (st1, .ok res)) ∧
+    (v ≠ .skip → v ≠ .stop → tupleLoop rec (sub :: rest) res cur last st =
+        tupleLoop rec rest v (nextScope cur last) (some c1) st1) := by
+  refine ⟨?_, ?_, ?_⟩
+  · intro hv; subst hv
+    simp only [tupleLoop, M.bind_apply, h]
+  · intro hv; subst hv
+    simp only [tupleLoop, M.bind_apply, h]
+    rfl
+  · intro h1 h2
+    simp only [tupleLoop, M.bind_apply, h]   -- (the catch-all alternative: `h1`, `h2` discharge the other two)
+
+/-- **Bindings chain forward across skipped steps.**  Let `c0` be the scope a step of a tuple / Pipe
+    finished in, showing `k ↦ x` (the binder's own frame).  If the later steps leave the binding
+    of `k` alone — whatever they return (an ordinary value, SKIP) and whatever else they bind —
+    then *every* later step is evaluated at a scope that shows `k ↦ x`: what the evaluator would do
+    at a scope without it (`rec'` is arbitrary there) cannot influence the chain.  In particular a
+    step evaluating to SKIP between the binder and a reader does not hide the binding, and an outer
+    binding of `k` cannot show through. -/
+theorem c07_chain_forward_skip {σ : Type} [ScopeAlg σ] [LawfulScope σ] (rec rec' : Rec σ) (steps : List Spec)
+    (k : String) (x : V)
+    (hkeep : ∀ s ∈ steps, ∀ t c st st' r, lookup c k = some x → rec s t c st = (st', .ok r) → lookup r.2 k = some x)
+    (hag : ∀ s ∈ steps, ∀ t c, lookup c k = some x → rec s t c = rec' s t c)
+    (res : V) (cur c0 : σ) (h0 : lookup c0 k = some x) :
+    tupleLoop rec steps res cur (some c0) = tupleLoop rec' steps res cur (some c0) :=
+  tupleLoop_inv_congr (fun c => lookup c k = some x)
+    (fun owner c hc => by rw [LawfulScope.lookup_chain]; exact hc) steps hkeep hag res cur c0 h0
+
+/-- `Val(SKIP)` is such a step: it evaluates to SKIP and finishes in a scope that shows what the
+    scope it was handed shows. -/
+theorem c07_val_skip_keeps {σ : Type} [ScopeAlg σ] [LawfulScope σ] (p : Prims) (fuel : Nat) (t : V) (c : σ) (st : St) :
+    ∃ c', interp p (fuel + 1) (.val .skip) t c st = (st, .ok (.skip, c')) ∧ ∀ k, lookup c' k = lookup c k := by
+  refine ⟨setArgMode (child c) false, rfl, ?_⟩
+  intro k
+  rw [LawfulScope.lookup_setArgMode, LawfulScope.lookup_child]
+
+/-- **binder, skipped steps, reader**: after a step that finished in a scope showing `k ↦ x`, any
+    number of steps that evaluate to SKIP and leave `k` alone, then `S.k`: the chain yields `x`. -/
+theorem c07_skip_then_read {σ : Type} [ScopeAlg σ] [LawfulScope σ] (p : Prims) (fuel : Nat) (k : String) (x : V)
+    (hx1 : x ≠ .skip) (hx2 : x ≠ .stop) (hp : p.tEval [] x = .ok x) :
+    ∀ (mids : List Spec),
+      (∀ s ∈ mids, ∀ (t : V) (c : σ) (st : St), lookup c k = some x →
+        ∃ st' c', interp p (fuel + 1) s t c st = (st', .ok (.skip, c')) ∧ lookup c' k = some x) →
+      ∀ (res : V) (cur c0 : σ) (st : St), lookup c0 k = some x →
+        ∃ st', tupleLoop (interp p (fuel + 1)) (mids ++ [.sRead k []]) res cur (some c0) st = (st', .ok x) := by
+  intro mids
+  induction mids with
+  | nil =>
+    intro _ res cur c0 st h0
+    refine ⟨st, ?_⟩
+    have hl : lookup (setArgMode (child (chain cur c0)) false) k = some x := by
+      rw [LawfulScope.lookup_setArgMode, LawfulScope.lookup_child, LawfulScope.lookup_chain]; exact h0
+    have hr : interp p (fuel + 1) (.sRead k []) res (chain cur c0) st =
+        (st, .ok (x, setArgMode (child (chain cur c0)) false)) := by
+      simp only [interp, Spec.isSpecLike, if_true, glomit, hl, M.lift, hp, M.bind_apply, M.pure_apply]
+    have := (c07_chain_skip_is_link (interp p (fuel + 1)) (.sRead k []) [] res cur (some c0) st st x _ hr).2.2 hx1 hx2
+    rw [List.nil_append, this]; rfl
+  | cons m rest ih =>
+    intro hm res cur c0 st h0
+    have hc : lookup (chain cur c0) k = some x := by rw [LawfulScope.lookup_chain]; exact h0
+    obtain ⟨st1, c1, hr, h1⟩ := hm m (List.mem_cons_self ..) res (chain cur c0) st hc
+    have := (c07_chain_skip_is_link (interp p (fuel + 1)) m (rest ++ [.sRead k []]) res cur (some c0) st st1 .skip c1 hr).1 rfl
+    rw [List.cons_append, this]
+    exact ih (fun s hs => hm s (List.mem_cons_of_mem _ hs)) res (nextScope cur (some c0)) c1 st1 h1
+
 /-- `A.name` binds the target in its own frame, `S(name=…)`'s frame gets the evaluated values:
     that frame is what the next step of the chain sees. -/
 theorem c07_binders_write_own_frame {σ : Type} [ScopeAlg σ] [LawfulScope σ] (p : Prims) (rec : Rec σ)
@@ -228,5 +304,26 @@ theorem c07_model_eq_reference (p : Prims) (fuel : Nat) (spec : Spec) (t : V) (c
 example : lookup (σ := Frames) (bind (child [{ mode := some .auto }]) "k" (.int 1)) "k" = some (.int 1) := by rfl
 example : lookup (σ := Frames) (child (bind [{ mode := some .auto }] "k" (.int 1))) "k" = some (.int 1) := by rfl
 example : lookup (σ := Frames) [{ mode := some .auto }] "k" = Option.none := by rfl
+
+-- glom(1, (A.k, Val(SKIP), S.k)) == 1: a step evaluating to SKIP between binder and reader
+example : isOkInt (glomTop trivPrims 8 (.tuple [.aBind "k", .val .skip, .sRead "k" []]) (.int 1) [] {}) 1 = true := by decide
+-- … with a caller binding of the same name, after an earlier binding in the chain, two skips, in a Pipe
+example : isOkStr (glomTop trivPrims 8 (.pipe [.sBind [("k", .val (.str "outer"))], .sBind [("k", .val (.str "inner"))],
+    .val .skip, .val .skip, .sRead "k" []]) (.int 1) [("k", .str "caller")] {}) "inner" = true := by decide
+-- a skipped step that binds (Spec(Val(SKIP), scope={'k': 3})) is a link like any other
+example : isOkInt (glomTop trivPrims 8 (.tuple [.specW (.val .skip) [("k", .int 3)], .sRead "k" []]) (.int 1) [] {}) 3 = true := by decide
+-- STOP right after the binder: nothing later runs (the reader of an unbound name is never evaluated)
+example : isOkInt (glomTop trivPrims 8 (.tuple [.aBind "k", .val .stop, .sRead "zz" []]) (.int 1) [] {}) 1 = true := by decide
+-- a binding made inside a nested chain does not reach the enclosing chain, skipped step or not
+example : isErr (glomTop trivPrims 8 (.tuple [.tuple [.aBind "k", .val .skip], .sRead "k" []]) (.int 1) [] {}) "PathAccessError" = true := by decide
+-- the hypotheses of `c07_skip_then_read` are satisfiable: `Val(SKIP)` steps (`c07_val_skip_keeps`)
+example (c0 : Frames) (h0 : lookup c0 "k" = some (.int 1)) (res : V) (cur : Frames) (st : St) :
+    ∃ st', tupleLoop (interp trivPrims 3) ([.val .skip, .val .skip] ++ [.sRead "k" []]) res cur (some c0) st = (st', .ok (.int 1)) :=
+  c07_skip_then_read trivPrims 2 "k" (.int 1) (by intro h; cases h) (by intro h; cases h) rfl [.val .skip, .val .skip]
+    (fun s hs t c st hc => by
+      have hs' : s = .val .skip := by simp at hs; exact hs
+      subst hs'
+      obtain ⟨c', h1, h2⟩ := c07_val_skip_keeps trivPrims 2 t c st
+      exact ⟨st, c', h1, by rw [h2]; exact hc⟩) res cur c0 st h0
 
 end Glom.Props.C07
